@@ -154,7 +154,7 @@ def _run_slice(args):
         resource.setrlimit(resource.RLIMIT_AS, (lim, lim))
     except Exception:  # noqa: BLE001
         pass
-    agg = {"n": 0, "fired": collections.Counter(), "probes": collections.Counter(), "keys": set(), "viols": [],
+    agg = {"n": 0, "fired": collections.Counter(), "probes": collections.Counter(), "keys": set(), "sched": set(), "viols": [],
            "digests": {}, "vtime_ns": 0, "samples": [], "viol_count": 0, "errors": []}
     persig: t.Dict[str, int] = collections.Counter()
     for i in range(len(_CASES)):
@@ -190,6 +190,8 @@ def _run_slice(args):
             agg["keys"].add(k if isinstance(k, int) else key_hash(k))
         for k in res.get("keys") or ():
             agg["keys"].add(k if isinstance(k, int) else key_hash(k))
+        if res.get("sched_key") is not None:
+            agg["sched"].add(res["sched_key"])
         v = res.get("viol")
         if v:
             agg["viol_count"] += 1
@@ -285,7 +287,7 @@ def _run(check: Check, args, t0: float) -> int:
                     results.append(f.result())
                 except concurrent.futures.process.BrokenProcessPool:
                     raise HarnessError("a worker died (timeout safety net or crash); see stderr")
-    fired, probes, keys = collections.Counter(), collections.Counter(), set()
+    fired, probes, keys, scheds = collections.Counter(), collections.Counter(), set(), set()
     viols: t.List[t.Tuple[int, dict]] = []
     persig: t.Dict[str, int] = collections.Counter()
     digests: t.Dict[int, str] = {}
@@ -297,6 +299,7 @@ def _run(check: Check, args, t0: float) -> int:
         fired.update(r["fired"])
         probes.update(r["probes"])
         keys |= r["keys"]
+        scheds |= r.get("sched", set())
         viols += r["viols"]
         persig.update(r["persig"])
         digests.update(r["digests"])
@@ -389,6 +392,9 @@ def _run(check: Check, args, t0: float) -> int:
         }
         if check.exhaustive_note:
             cov["exhaustive_note"] = check.exhaustive_note
+        if scheds:
+            cov["distinct_schedules"] = len(scheds)
+            cov["distinct_schedules_measure"] = "hash of the sequence of external completions (per-connection rx/tx, connect, executor job, close) the simulated loop injected, in order"
         if args.limit:
             cov["limited_to_first_cases"] = args.limit
         ev = {"property_id": check.id, "tier": tier, "seed": seed, "level": check.level, "coverage": cov,
